@@ -333,7 +333,10 @@ class RedirReal:
         from .vloop import Env
         self.env = Env()
         self.cfg = cfg
-        self.client = SimpleAsyncHTTPClient(force_instance=True, max_clients=1)    # a redirect must release its slot first
+        # cfg["via"] = 1: the redirect limit comes from the client's defaults, not from the request itself
+        via = cfg.get("via", 0)
+        ckw = {"defaults": {"max_redirects": cfg["maxr"]}} if via else {}
+        self.client = SimpleAsyncHTTPClient(force_instance=True, max_clients=1, **ckw)    # a redirect must release its slot first
         self.tcp = FakeTCPClient(self.env)
         self.client.tcp_client.close()
         self.client.tcp_client = self.tcp
@@ -353,8 +356,10 @@ class RedirReal:
         meth = cfg["method"]
         self.body = b"b=1" if meth in ("POST", "PUT", "PATCH") else None
         url = "http://%sa.test/p0" % ("u:p@" if creds == 1 else "")
+        if not via:
+            kw["max_redirects"] = cfg["maxr"]
         req = HTTPRequest(url, method=meth, headers=h, body=self.body, follow_redirects=bool(cfg["follow"]),
-                          max_redirects=cfg["maxr"], connect_timeout=0, request_timeout=50, decompress_response=False, **kw)
+                          connect_timeout=0, request_timeout=50, decompress_response=False, **kw)
         self.ncb = 0
         self.fut = self.client.fetch(req, raise_error=False)
         self.fut.add_done_callback(lambda f: setattr(self, "ncb", self.ncb + 1))
